@@ -244,7 +244,7 @@ class History:
               "e": mask(int(x[1:]) for x in ent if x in ids),
               "dup": mask(int(x[1:]) for x, c in ent.items() if x in ids and c > 1),
               "used": [-2] * D["np"], "nonces": [0] * n, "retn": [0] * n, "fresh": True,
-              "keys": 0, "xkeys": 0, "cached": -1}
+              "keys": 0, "xkeys": 0, "cached": -1, "alt": 0}
         ev["counts"] = [ent.get(f"f{k}", 0) for k in range(1, n + 1)]
         if any(x not in ids for x in ent) and out == 0:
             ev["out"] = 5
@@ -386,18 +386,29 @@ class History:
         i = [k for k, d in self.inst.items() if d is exe.dag][0]
         self.observe("exsetup", i, lambda: self.run(lambda: exe.setup()), extra={"x": x})
 
-    def op_restart(self, i, f, r=-1, xx=-1, t=-1, dep=-1):
+    def op_restart(self, i, f, r=-1, xx=-1, t=-1, dep=-1, alt=0):
         if f not in self.files:
             return
         path, args = self.files[f]
         kw = self.sel_kwargs(r, xx, t, dep)
         a = self.trim_for_restart(args)
+        if alt:
+            # a restart called with OTHER arguments than the run that wrote the file (all of them given): the nodes it
+            # executes that read a DAG input receive the arguments of this call (C02), whatever inputs the file holds
+            args = a = [20 + p for p in range(self.D["np"])]
 
         def go():
             exe = self.inst[i].executor(from_cache=path, **kw)
             return self.run(exe, *a)
-        ev, ret = self.observe("restart", i, go, args, extra={"f": f, "r": r, "xx": xx, "t": t, "dep": dep})
-        if ev["out"] == 0:
+        ev, ret = self.observe("restart", i, go, args, extra={"f": f, "r": r, "xx": xx, "t": t, "dep": dep, "alt": alt})
+        if alt and isinstance(ret, tuple) and len(ret) == self.D["n"]:
+            # the arguments used by the nodes this restart EXECUTED (the values of the others come from the file)
+            ev["used"] = [-2] * self.D["np"]
+            for k, v in enumerate(ret, 1):
+                p = self.D["argof"][k - 1]
+                if p and ev["e"] >> (k - 1) & 1 and isinstance(v, tuple) and v[0] == "v" and v[2]:
+                    ev["used"][p - 1] = v[2][-1]
+        if ev["out"] == 0 and not alt:
             try:
                 # every value the restart returns is the value a full fresh call computes, and every node
                 # of the restart's selection has a value
